@@ -314,13 +314,18 @@ def make_emitter(case, archive, holder):
     if em == "isoline":
         return E.IsoLineEmitter(archive, iso_sigma=case["iso_sigma"], line_sigma=case["line_sigma"], bounds=case["bounds"],
                                 batch_size=case["batch"], seed=case["eseed"], **common)
-    if em == "ga_gaussian":
-        return E.GeneticAlgorithmEmitter(archive, bounds=case["bounds"], batch_size=case["batch"], operator="gaussian",
-                                         operator_kwargs={"sigma": case["sigma"], "seed": case["eseed"]}, **common)
-    if em == "ga_isoline":
-        return E.GeneticAlgorithmEmitter(archive, bounds=case["bounds"], batch_size=case["batch"], operator="isoline",
-                                         operator_kwargs={"iso_sigma": case["iso_sigma"], "line_sigma": case["line_sigma"],
-                                                          "seed": case["eseed"]}, **common)
+    if em in ("ga_gaussian", "ga_isoline"):
+        okw = ({"sigma": case["sigma"], "seed": case["eseed"]} if em == "ga_gaussian" else
+               {"iso_sigma": case["iso_sigma"], "line_sigma": case["line_sigma"], "seed": case["eseed"]})
+        before = dict(okw)
+        # users build several emitters from ONE operator_kwargs dict: a sibling with other (much wider) bounds is constructed first from the
+        # very same dict object; it must leave no trace in the emitter under test, and the dict must come back unchanged
+        dim = len(case["x0"]) if case.get("init") is None else len(case["init"][0])
+        E.GeneticAlgorithmEmitter(archive, bounds=[(-1000.0, 1000.0)] * dim, batch_size=case["batch"], operator=em[3:], operator_kwargs=okw, **common)
+        emitter = E.GeneticAlgorithmEmitter(archive, bounds=case["bounds"], batch_size=case["batch"], operator=em[3:], operator_kwargs=okw, **common)
+        if okw != before:
+            raise AssertionError("GeneticAlgorithmEmitter changed the caller's operator_kwargs dict: %r -> %r" % (before, okw))
+        return emitter
     if em == "gradop":
         return E.GradientOperatorEmitter(archive, sigma=case["sigma"], sigma_g=case["sigma_g"], line_sigma=case["line_sigma"],
                                          measure_gradients=case["measure_gradients"], normalize_grad=case["normalize_grad"],
